@@ -372,7 +372,8 @@ class Verdict:
         return 1 if self.violations else 0
 
 
-NEGATIVES_FOR = {"C01": ["ResourceImpl_orig"], "C08": ["MC_Pool_orig.cfg"], "C09": ["physdestroy"], "C11": ["MC_ConcRouter_"],
+NEGATIVES_FOR = {"C01": ["ResourceImpl_orig", "NEG_ResourceImpl_none"], "C02": ["NEG_ResourceImpl_notifyone"], "C03": ["NEG_ResourceImpl_barge"],
+                 "C12": ["NEG_ResourceImpl_nomerge"], "C08": ["MC_Pool_orig.cfg"], "C09": ["physdestroy"], "C11": ["MC_ConcRouter_"],
                  "C15": ["origrace", "expiryrace", "oneshot_code_ListWriteExclusive"], "C20": ["ThreadStart_"]}
 
 
